@@ -1,8 +1,9 @@
 #!/bin/sh
-# Offline build of the framework: Lean library + gmodel, Rust harness against /repo.
+# Offline build of the framework: Lean model + every property module + gmodel, Rust harness against /repo.
 set -e
 cd "$(dirname "$0")"
 export CARGO_NET_OFFLINE=true
-(cd lean && lake build Grenad gmodel)
+PROPS=$(ls lean/Grenad/Props/*.lean | sed 's#lean/##; s#/#.#g; s#\.lean$##' | tr '\n' ' ')
+(cd lean && lake build Grenad gmodel $PROPS)
 [ -f harness/Cargo.lock ] || cp /repo/Cargo.lock harness/Cargo.lock
 (cd harness && cargo build --offline)
